@@ -206,6 +206,10 @@ func VerifC16Split() {
 		kinds[j] = data[1]
 		// transaction (0), entry (1), block (2), subset (3, ignored), epoch (4, ignored)
 		verifAssume(kinds[j] <= 4)
+		if verifParam("kind_classes", 0) == 1 {
+			// one representative per class the code distinguishes: child (transaction), block, ignored (subset)
+			verifAssume(kinds[j] != 1 && kinds[j] != 4)
+		}
 		blocks += verifIteU64(kinds[j] == 2, 1, 0)
 		cids[j] = c16MkCid(byte(0x20 + j))
 		raws[j] = c16Section(cids[j], data)
